@@ -393,4 +393,65 @@ theorem se3Exp_SE3Log (eps : ℝ) (D : SE3 ℝ) (h0 : 0 ≤ eps) (hD : SE3.Valid
   have e12 : (1 : ℝ) / 2 * θ = θ / 2 := by ring
   rw [e12, hB, hC, polyK_id_mulVec]
 
+/-! ## the one-parameter law on the Taylor branch (pass 3): defect of the truncated series -/
+
+/-- the code's truncated series for `sin(t/2)/t` and `cos(t/2)` -/
+noncomputable def tS (t : ℝ) : ℝ := 1 / 2 - t ^ 2 / 48 + t ^ 4 / 3840
+noncomputable def tC (t : ℝ) : ℝ := 1 - t ^ 2 / 8 + t ^ 4 / 384
+
+theorem mono_bound (u v : ℝ) (hu : 0 ≤ u) (hv : 0 ≤ v) (hs : u + v ≤ 1) (i j n : Nat) (hn : n ≤ i + j) :
+    0 ≤ u ^ i * v ^ j ∧ u ^ i * v ^ j ≤ (u + v) ^ n := by
+  have hs0 : 0 ≤ u + v := by linarith
+  refine ⟨by positivity, ?_⟩
+  calc u ^ i * v ^ j ≤ (u + v) ^ i * (u + v) ^ j :=
+        mul_le_mul (pow_le_pow_left₀ hu (by linarith) i) (pow_le_pow_left₀ hv (by linarith) j) (by positivity) (by positivity)
+    _ = (u + v) ^ (i + j) := (pow_add _ _ _).symm
+    _ ≤ (u + v) ^ n := pow_le_pow_of_le_one hs0 hs hn
+
+theorem taylor_dw (u v : ℝ) (hu : 0 ≤ u) (hv : 0 ≤ v) (hs : u + v ≤ 1) :
+    |tC u * tC v - u * v * tS u * tS v - tC (u + v)| ≤ (u + v) ^ 6 / 700 := by
+  have e : tC u * tC v - u * v * tS u * tS v - tC (u + v)
+      = -(1 / 14745600) * (u ^ 5 * v ^ 5) + 1 / 184320 * (u ^ 5 * v ^ 3) - 1 / 7680 * (u ^ 5 * v ^ 1)
+        + 1 / 147456 * (u ^ 4 * v ^ 4) - 1 / 3072 * (u ^ 4 * v ^ 2) + 1 / 184320 * (u ^ 3 * v ^ 5)
+        - 1 / 2304 * (u ^ 3 * v ^ 3) - 1 / 3072 * (u ^ 2 * v ^ 4) - 1 / 7680 * (u ^ 1 * v ^ 5) := by
+    unfold tC tS; ring
+  rw [e]
+  obtain ⟨a1, b1⟩ := mono_bound u v hu hv hs 5 5 6 (by norm_num)
+  obtain ⟨a2, b2⟩ := mono_bound u v hu hv hs 5 3 6 (by norm_num)
+  obtain ⟨a3, b3⟩ := mono_bound u v hu hv hs 5 1 6 (by norm_num)
+  obtain ⟨a4, b4⟩ := mono_bound u v hu hv hs 4 4 6 (by norm_num)
+  obtain ⟨a5, b5⟩ := mono_bound u v hu hv hs 4 2 6 (by norm_num)
+  obtain ⟨a6, b6⟩ := mono_bound u v hu hv hs 3 5 6 (by norm_num)
+  obtain ⟨a7, b7⟩ := mono_bound u v hu hv hs 3 3 6 (by norm_num)
+  obtain ⟨a8, b8⟩ := mono_bound u v hu hv hs 2 4 6 (by norm_num)
+  obtain ⟨a9, b9⟩ := mono_bound u v hu hv hs 1 5 6 (by norm_num)
+  rw [abs_le]; constructor <;> linarith
+
+theorem taylor_dv (u v : ℝ) (hu : 0 ≤ u) (hv : 0 ≤ v) (hs : u + v ≤ 1) :
+    |u * tS u * tC v + v * tS v * tC u - (u + v) * tS (u + v)| ≤ (u + v) ^ 7 / 5000 := by
+  have e : u * tS u * tC v + v * tS v * tC u - (u + v) * tS (u + v)
+      = 1 / 1474560 * (u ^ 5 * v ^ 4) - 1 / 30720 * (u ^ 5 * v ^ 2) + 1 / 1474560 * (u ^ 4 * v ^ 5)
+        - 1 / 18432 * (u ^ 4 * v ^ 3) - 1 / 18432 * (u ^ 3 * v ^ 4) - 1 / 30720 * (u ^ 2 * v ^ 5) := by
+    unfold tC tS; ring
+  rw [e]
+  obtain ⟨a1, b1⟩ := mono_bound u v hu hv hs 5 4 7 (by norm_num)
+  obtain ⟨a2, b2⟩ := mono_bound u v hu hv hs 5 2 7 (by norm_num)
+  obtain ⟨a3, b3⟩ := mono_bound u v hu hv hs 4 5 7 (by norm_num)
+  obtain ⟨a4, b4⟩ := mono_bound u v hu hv hs 4 3 7 (by norm_num)
+  obtain ⟨a5, b5⟩ := mono_bound u v hu hv hs 3 4 7 (by norm_num)
+  obtain ⟨a6, b6⟩ := mono_bound u v hu hv hs 2 5 7 (by norm_num)
+  rw [abs_le]; constructor <;> linarith
+
+theorem norm_smul_nonneg (φ : Vec3 ℝ) (a : ℝ) (ha : 0 ≤ a) : (φ.smul a).norm = a * φ.norm := by
+  rw [norm_smul_abs, abs_of_nonneg ha]
+
+/-- Taylor branch of `so3Exp` on a non-negative multiple of `φ` -/
+theorem so3Exp_smul_taylor (eps : ℝ) (φ : Vec3 ℝ) (a : ℝ) (ha : 0 ≤ a) (h : ¬ eps < a * φ.norm) :
+    so3Exp eps (φ.smul a) = axisQuat φ (a * tS (a * φ.norm)) (tC (a * φ.norm)) := by
+  unfold so3Exp
+  rw [norm_smul_nonneg φ a ha]
+  simp only [lt_real, h, decide_false, Bool.false_eq_true, if_false, q_real, k_real, Nat.cast_one, Nat.cast_ofNat]
+  unfold axisQuat Quat.mk' Vec3.smul tS tC
+  ext <;> simp only [] <;> ring
+
 end PP.Spline
